@@ -253,6 +253,9 @@ class Patched:
         import udp_link
         self.clck_gen, self.udp_link = clck_gen, udp_link
         self.saved = (clck_gen.time, clck_gen.threading, udp_link.socket)
+        from ..session import FakeOS
+        self.saved_os = clck_gen.os
+        clck_gen.os = FakeOS()          # sched_setscheduler with the kernel's rules (EINVAL outside 1..99, EPERM unprivileged)
         self.ftime = FakeTime()
         clck_gen.time = self.ftime
         clck_gen.threading = FakeThreading
@@ -278,6 +281,7 @@ class Patched:
     def __exit__(self, *a):
         cg, ul = self.clck_gen, self.udp_link
         cg.time, cg.threading, ul.socket = self.saved
+        cg.os = self.saved_os
         for name, val in self.saved_cls.items():
             setattr(cg.CLCKGen, name, val)
         root = logging.getLogger()
@@ -310,6 +314,8 @@ def run_session(P, case):
         kw["ind_period"] = case["period"]
     if case["start"] is not None:
         kw["clck_start"] = case["start"]
+    if case.get("prio") is not None:
+        kw["sched_rr_prio"] = case["prio"]      # the worker asks for SCHED_RR before it ticks; a refusal must not stop the clock
     all_links = list(links)
     clk = cg.CLCKGen(links, **kw)
     clk._breaker.vc = vc
@@ -343,7 +349,9 @@ def run_session(P, case):
         vc.now += vc.cur()[2]
         for (what, li) in churn.get(vc.k, []):
             obj = (all_links + spare)[li] if li < len(all_links) + len(spare) else None
-            cur_objs = clk.clck_links
+            # the list the caller handed to the constructor and the generator's attribute are the same object (that is how
+            # transceivers attach their links): both routes are used
+            cur_objs = links if case.get("churn_via") == "caller" else clk.clck_links
             if what == "add" and obj is not None and li not in members["now"]:
                 cur_objs.append(obj)
                 members["now"].append(li)
@@ -809,16 +817,20 @@ def run(ctx):
     with Patched() as P:
         # ---- links attached / detached while the clock runs (implementation-level: the model's link set is fixed per session)
         for ci in range(6 if ctx.tier == "quick" else 60):
-            nl0 = rng.below(3)
+            nl0 = rng.below(3) if ci % 3 else 0           # every third scenario starts with NO link (an empty list handed to the constructor)
             per = rng.choice([1, 1, 2, 3])
             n = rng.range(12, 30)
             churn = {}
             for _ in range(rng.range(2, 5)):
                 churn.setdefault(rng.below(n - 2), []).append((rng.choice(["add", "add", "del"]), rng.below(nl0 + 4)))
             st0 = rng.choice([0, 5, H - 6])
-            ccase = dict(start=st0, period=per, nlinks=nl0, handler=True, runs=[(0, 0, [(0, 0, 10)] * n)], churn=churn, domain=True, pats=["churn"])
+            ccase = dict(start=st0, period=per, nlinks=nl0, handler=True, runs=[(0, 0, [(0, 0, 10)] * n)], churn=churn, churn_via=("caller" if ci % 2 == 0 else "attribute"), prio=rng.choice([None, 1, 99, 100, 0]), domain=True, pats=["churn"])
             ctx.in_flight = ("churn", ci)
             flat, st, an = run_session(P, ccase)
+            if any(x.get("crashed") for x in st) or len(st[0]["obs"]) != n:
+                ctx.oracle_fail("the clock thread did not deliver the %d ticks of the run (%d observed; %s)" % (n, len(st[0]["obs"]), "; ".join(an) or "no anomaly recorded"),
+                                dict(start=st0, period=per, initial_links=nl0, sched_rr_prio=ccase["prio"]), key="c09-clock-thread-dies")
+                continue
             mem = dict(st[0].get("members", []))
             cur = list(range(nl0))
             for k, o in enumerate(st[0]["obs"]):
